@@ -105,8 +105,8 @@ class Gen(object):
             return base
         return self.rand_bytes(min(255, r.choice([0, 1, 2, 3, n])), alpha)[0]
 
-    def new_pool(self, sess):
-        """Fresh values for the scalars A$..D$, the array S$(0..4)."""
+    def pool_values(self):
+        """Nine fresh related values (for the scalars A$..D$ and the array S$(0..4))."""
         r = self.rng
         base, alpha = self.rand_bytes(self.rand_len())
         vals = [base]
@@ -116,14 +116,8 @@ class Gen(object):
             else:
                 vals.append(self.rand_bytes(self.rand_len(), alpha if r.random() < 0.5 else None)[0])
         r.shuffle(vals)
-        self.pool = {}
-        for name, v in zip(['A$', 'B$', 'C$', 'D$'], vals[:4]):
-            sess.s.set_variable(name, v)
-            self.pool[name] = v
-        sess.s.set_variable('S$()', list(vals[4:9]))
-        for i, v in enumerate(vals[4:9]):
-            self.pool['S$(%d)' % i] = v
         self.alpha = alpha
+        return vals
 
     def str_leaf(self):
         r = self.rng
@@ -303,9 +297,74 @@ def describe(x, key, prefix='a'):
             key['%s%d_op' % (prefix, i)] = y['op']
 
 
-def apply_pre(sess, pre):
-    for name, v in pre:
-        sess.s.set_variable(name, v)
+class Internal(Exception):
+    """A Python exception escaped from the Session API (also a C01 violation)."""
+
+
+class Driver(object):
+    """Session + generator state; every Session call goes through here so that an escaping exception becomes a rejected
+    event (and the session is replaced) instead of a harness crash."""
+
+    def __init__(self, ctx, gen):
+        self.ctx, self.g = ctx, gen
+        self.s = None
+        self.restart()
+
+    def restart(self):
+        if self.s is not None:
+            self.s.close()
+        self.s = Sess()
+        self.field_open = False
+
+    def close(self):
+        self.s.close()
+
+    def setv(self, name, v):
+        try:
+            self.s.s.set_variable(name, v)
+        except BaseException as ex:
+            raise Internal('%s: %s' % (type(ex).__name__, ex))
+
+    def ex(self, text):
+        r = self.s.ex(text)
+        if r[0] == 'internal':
+            raise Internal(r[1])
+        return r
+
+    def new_pool(self):
+        g = self.g
+        vals = g.pool_values()
+        g.pool = {}
+        for name, v in zip(['A$', 'B$', 'C$', 'D$'], vals[:4]):
+            self.setv(name, v)
+            g.pool[name] = v
+        self.setv('S$()', list(vals[4:9]))
+        for i, v in enumerate(vals[4:9]):
+            g.pool['S$(%d)' % i] = v
+
+    def apply_pre(self):
+        for name, v in self.g.pre:
+            self.setv(name, v)
+
+    def getvar(self, name):
+        """BASIC-visible value of a scalar or array element, as bytes."""
+        if '(' in name:
+            r = self.s.ev(name)
+            if r[0] == 'internal':
+                raise Internal(r[1])
+            if r[0] == 'ok' and isinstance(r[1], bytes):
+                return r[1]
+            raise core.MachineryError('cannot read %s: %r' % (name, r[:2]))
+        try:
+            return bytes(self.s.s.get_variable(name))
+        except BaseException as ex:
+            raise Internal('%s: %s' % (type(ex).__name__, ex))
+
+    def open_field(self, widths):
+        self.ex('CLOSE')
+        self.ex('OPEN "C09.DAT" FOR RANDOM AS 1 LEN=255')
+        self.ex('FIELD #1,%d AS F$,%d AS G$' % widths)
+        self.field_open = True
 
 
 def run(ctx):
@@ -313,7 +372,7 @@ def run(ctx):
                        'MID$=/LSET/RSET + get_variable) judged by TLC with Strings.tla; distinct = distinct (tree with values) / '
                        '(statement, target, arguments); non-trivial = all')
     if ctx.quick():
-        ctx.model_check("Strings_MC", require_actions=False, workers=4)
+        ctx.model_check('Strings_MC', require_actions=False, workers=4)
     else:
         ctx.model_check('Strings_MC', 'Strings_MC_big.cfg', require_actions=False, workers=4)
         ctx.model_check('Strings_MC', 'Strings_MC_long.cfg', require_actions=False, workers=4)
@@ -324,7 +383,7 @@ def run(ctx):
     n_expr = int(ctx.pick(36000, 600000) * scale)
     n_stmt = int(ctx.pick(7000, 120000) * scale)
     chunk = 30000
-    rejected = [0]
+    internal = [0]
 
     def flush():
         if not events:
@@ -342,28 +401,48 @@ def run(ctx):
                 shown = bytes(shown)
             ctx.reject('C09 %s: %s  [%s] -> %s %r' % (clause, inf['text'], inf['vars'], e['k'], shown), key=key,
                        data={'event': e, 'text': inf['text']})
-            rejected[0] += 1
         del events[:]
         del info[:]
 
-    s = Sess()
     g = Gen(rng, 0.12 if ctx.quick() else 0.2)
+    d = Driver(ctx, g)
     ops = STR_OPS + NUM_OPS
+
+    def guarded(body, what):
+        """Run one event; an exception escaping the Session API is a rejection, the session is replaced."""
+        for attempt in (0, 1, 2):
+            try:
+                return body()
+            except Internal as ex:
+                internal[0] += 1
+                ctx.reject('C09 internal error escaping the Session API during %s: %s' % (what(), ex),
+                           key={'clause': 'internal', 'exc': exc_class(str(ex))}, data={'text': what()})
+                d.restart()
+                try:
+                    d.new_pool()
+                except Internal:
+                    pass
+                return None
+
     # ---------------- expressions ----------------
-    for i in range(n_expr):
+    cur = ['']
+
+    def expr_event(i):
         if i % 12 == 0:
             if i % 3000 == 0 and i:
-                s.close()
-                s = Sess()
-            g.new_pool(s)
+                d.restart()
+            d.new_pool()
         op = ops[i % len(ops)] if rng.random() < 0.8 else rng.choice(['mid', 'instr', 'left', 'right', 'lt', 'cat'])
         depth = 1 if rng.random() < 0.7 else rng.choice([2, 2, 3])
         x = g.tree(op, depth)
         text = render(x)
+        cur[0] = text
         if len(text) > 230:
-            continue
-        apply_pre(s, g.pre)
-        r = s.ev(text)
+            return
+        d.apply_pre()
+        r = d.s.ev(text)
+        if r[0] == 'internal':
+            raise Internal(r[1])
         e = {'op': 'expr', 'x': strip(x)}
         if r[0] == 'ok' and isinstance(r[1], bytes):
             e['k'], e['v'] = 's', list(r[1])
@@ -372,81 +451,74 @@ def run(ctx):
         elif r[0] in ('err', 'soft'):
             e['k'], e['v'] = 'err', r[1]
         else:
-            e['k'], e['v'] = ('internal' if r[0] == 'internal' else 'other'), 0
+            e['k'], e['v'] = 'other', 0
         key = {}
         describe(x, key)
         events.append(e)
         info.append({'op': op, 'depth': depth_of(x), 'text': text, 'key': key,
-                     'vars': ' '.join('%s=%r' % (k, v) for k, v in sorted(used_vars(x, g.pre).items()))[:300]})
+                     'vars': ' '.join('%s=%r' % (k, v) for k, v in sorted(used_vars(x).items()))[:300]})
         ctx.count(e['x'])
         if i in (0, 7, 500):
             ctx.sample({'text': text, 'event': e})
+
+    for i in range(n_expr):
+        guarded(lambda: expr_event(i), lambda: cur[0])
         if len(events) >= chunk:
             flush()
     flush()
-    s.close()
     ctx.cov['expr_events'] = n_expr
     # ---------------- statements ----------------
-    s = Sess()
+    d.restart()
     stmt_count = {'midset': 0, 'lset': 0, 'rset': 0, 'self': 0, 'field': 0, 'array': 0, 'codelit': 0, 'fresh': 0}
-    field_open = [False]
 
-    def open_field(widths):
-        s.ex('CLOSE')
-        s.ex('OPEN "C09.DAT" FOR RANDOM AS 1 LEN=255')
-        s.ex('FIELD #1,%d AS F$,%d AS G$' % widths)
-        field_open[0] = True
-
-    for i in range(n_stmt):
+    def stmt_event(i):
+        cur[0] = 'statement set-up'
         if i % 8 == 0:
             if i % 2000 == 0 and i:
-                s.close()
-                s = Sess()
-                field_open[0] = False
-            g.new_pool(s)
+                d.restart()
+            d.new_pool()
         g.begin(99)          # all sub-trees "inner": keep errors in them rare
         kind = rng.choice(['midset', 'midset', 'midset', 'lset', 'rset'])
         tk = rng.random()
         tval, _ = g.rand_bytes(g.rand_len(), g.alpha if rng.random() < 0.5 else None)
+        fresh = False
         if tk < 0.45:
             tname = 'T$'
-            s.s.set_variable('T$', tval)
+            d.setv('T$', tval)
         elif tk < 0.65:
             tname = 'U$(%d)' % rng.randint(0, 3)
-            s.ex('U$(0)=""')
-            s.s.set_variable(tname.split('(')[0] + '()', [b'q', b'', b'zz', b'www'])
-            s.s.set_variable('W$', tval)
-            s.ex('%s=W$' % tname)
+            d.setv('U$()', [b'q', b'', b'zz', b'www'])
+            d.setv('W$', tval)
+            d.ex('%s=W$' % tname)
             stmt_count['array'] += 1
         elif tk < 0.8:
             # FIELD variable: lives in the file buffer, written in place
-            w = len(tval) if len(tval) <= 200 else 200
-            open_field((w, rng.randint(0, 20)))
-            s.s.set_variable('W$', tval[:w])
-            s.ex('LSET F$=W$')
+            w = min(len(tval), 200)
+            d.open_field((w, rng.randint(0, 20)))
+            d.setv('W$', tval[:w])
+            d.ex('LSET F$=W$')
             tname = 'F$'
             stmt_count['field'] += 1
         elif tk < 0.92:
             # target string lives in program code: the statement has to copy it to string space first
             n = rng.choice([0, 1, 2, 5, 9, 30])
             lit = bytes(rng.choice(b'abcdefghijXYZ 0123456789') for _ in range(n))
-            s.ex('10 T$="%s"' % lit.decode('ascii'))     # storing a program line clears all variables
-            field_open[0] = False
-            g.new_pool(s)
-            s.ex('GOTO 10')
+            d.ex('10 T$="%s"' % lit.decode('ascii'))     # storing a program line clears all variables
+            d.field_open = False
+            d.new_pool()
+            d.ex('GOTO 10')
             tname = 'T$'
             stmt_count['codelit'] += 1
         else:
             # a variable that does not exist yet
-            s.ex('CLEAR')
-            field_open[0] = False
-            g.new_pool(s)
+            d.ex('CLEAR')
+            d.field_open = False
+            d.new_pool()
             tname = rng.choice(['Q$', 'QA$(2)'])
+            fresh = True
             stmt_count['fresh'] += 1
         # a variable that does not exist reads as "" (CLEAR semantics, C23); reading it would allocate it
-        before = b'' if tk >= 0.92 else getvar(s, tname)
-        if before is None:
-            raise core.MachineryError('cannot read target %s' % tname)
+        before = b'' if fresh else d.getvar(tname)
         L = len(before)
         selfsrc = rng.random() < 0.22
         if selfsrc:
@@ -456,9 +528,9 @@ def run(ctx):
             src = g.gen_str(rng.choice([0, 0, 1, 1, 2]), True)
         e = {'op': kind, 't': list(before), 'src': strip(src), 'self': selfsrc}
         key = {}
+        args = []
         if kind == 'midset':
-            start = g.gen_num(rng.choice([0, 0, 0, 1]), L)
-            args = [start]
+            args = [g.gen_num(rng.choice([0, 0, 0, 1]), L)]
             if rng.random() < 0.65:
                 args.append(g.gen_num(rng.choice([0, 0, 0, 1]), L))
             e['args'] = [strip(a) for a in args]
@@ -466,40 +538,52 @@ def run(ctx):
             describe({'t': 'f', 'a': args}, key, 'arg')
         else:
             text = '%s %s=%s' % (kind.upper(), tname, render(src))
+        cur[0] = text
         if len(text) > 230:
-            continue
-        apply_pre(s, g.pre)
-        r = s.ex(text)
-        after = getvar(s, tname)
+            return
+        d.apply_pre()
+        r = d.ex(text)
+        after = d.getvar(tname)
         if r[0] == 'ok':
             e['k'], e['v'] = 'ok', 0
         elif r[0] == 'err':
             e['k'], e['v'] = 'err', r[1]
         else:
-            e['k'], e['v'] = ('internal' if r[0] == 'internal' else 'other'), 0
-        e['after'] = list(after) if after is not None else []
+            e['k'], e['v'] = 'other', 0
+        e['after'] = list(after)
         key.update({'target_len': L, 'self': selfsrc, 'target': tname.split('(')[0]})
         events.append(e)
-        info.append({'op': kind, 'depth': max([depth_of(src)] + [depth_of(a) for a in (args if kind == 'midset' else [])]),
+        info.append({'op': kind, 'depth': max([depth_of(src)] + [depth_of(a) for a in args]),
                      'text': text, 'key': key,
                      'vars': ('%s=%r ' % (tname, before) + ' '.join('%s=%r' % (k, v) for k, v in
-                              sorted(used_vars(src, g.pre).items())))[:300]})
+                              sorted(used_vars(src).items())))[:300]})
         stmt_count[kind] += 1
         ctx.count({k: v for k, v in e.items() if k not in ('k', 'v', 'after')})
         if i in (0, 11):
             ctx.sample({'text': text, 'event': e})
+
+    for i in range(n_stmt):
+        guarded(lambda: stmt_event(i), lambda: cur[0])
         if len(events) >= chunk:
             flush()
     flush()
-    s.close()
+    d.close()
     ctx.cov['statement_events'] = stmt_count
+    ctx.cov['internal_errors'] = internal[0]
     ctx.cov['impl_and_tlc_wall_s'] = round(time.time() - t0, 1)
     ctx.assumptions += ['TLC evaluates Strings.tla correctly (definitions cross-checked exhaustively by Strings_MC)',
                         'error kind read from the console message',
-                        'Session.set_variable/get_variable transport byte strings faithfully (covered by C43)']
+                        'Session.set_variable/get_variable transport byte strings faithfully (covered by C43)',
+                        'a variable that does not exist after CLEAR reads as the empty string (C23)']
 
 
-def used_vars(x, pre):
+def exc_class(text):
+    """Exception text without addresses (for known-finding matching)."""
+    import re
+    return re.sub(r'[0-9a-f]{3,} \(\d+\)', 'ADDR', text)[:80]
+
+
+def used_vars(x):
     """Values of the string leaves of a tree, by source text (for the report line only)."""
     res = {}
 
@@ -517,12 +601,3 @@ def used_vars(x, pre):
     return res
 
 
-def getvar(s, name):
-    """BASIC-visible value of a scalar or array element, as bytes."""
-    try:
-        if '(' in name:
-            r = s.ev(name)
-            return r[1] if r[0] == 'ok' and isinstance(r[1], bytes) else None
-        return bytes(s.s.get_variable(name))
-    except Exception:
-        return None
